@@ -127,3 +127,17 @@ Proof.
   eapply Rle_trans; [apply Rabs_triang|]. rewrite Rabs_mult. pose proof (Rabs_pos p). pose proof half_ulp18_pos. nra.
 Qed.
 End RateDivDec.
+
+(** decimal: the ratio to one unit is the amount itself when the value already has that unit *)
+Lemma ratio_to_unit_same_dec (S : QBase DEC) (L : QLaws S) (q : Qt S) (u : nat) :
+  In u (u_iter S) -> q_unit S q = u ->
+  exists x1, HasRefUnit_div S q (q_new S (a_one DEC) u) = Ok x1 /\ dval x1 = dval (q_amount S q).
+Proof.
+  intros Hin Eu. rewrite (ref_div_same_unit S q (q_new S (a_one DEC) u)) by (rewrite (law_unit_new S L _ _ Hin); exact Eu).
+  rewrite (law_amount_new S L). cbn [a_div a_one DEC]. unfold dec_div.
+  change (dec_eq_zero dec_one) with false. cbn [negb].
+  destruct (dec_eq_zero (q_amount S q)) eqn:Ez.
+  - eexists. split; [reflexivity|]. unfold dec_eq_zero in Ez. apply Z.eqb_eq in Ez.
+    rewrite (dval_zero_coeff _ Ez). unfold dval. cbn. unfold Rdiv. apply Rmult_0_l.
+  - change (dec_eq_one dec_one) with true. eexists. split; reflexivity.
+Qed.
